@@ -90,7 +90,7 @@ CHECKS = {
         technique=E2 + "; RNG replaced by its contract; coefficient algebra + moment lemma",
     ),
     "C18": dict(
-        text="BinaryPolynomial degree/__mul__/__mod__/div/gcd/lcm/__eq__/__hash__: verification conditions generated from the real source (ast) with sidecar loop invariants, ghost quotients / Bezout cofactors and the axiomatised GF(2)[x] theory on UNBOUNDED integers, all discharged by z3: a = q.b + r with deg r < deg b, gcd divides both and is a combination, lcm.gcd = product. FiniteBifield/FiniteBifieldElement __call__, __add__, __mul__, __pow__, inverse, trace, conjugates per m (all elements, all exponents). Per field m = 1..16 (ground, with the real operations): modulus has degree m, is irreducible (trial division), x has order exactly 2^m - 1 (so the quotient ring is a field: L-field), Fermat for all elements. minimal_polynomial/evaluate/derivative: bounded cross-checks against an independent bitmask implementation.",
+        text="BinaryPolynomial degree/__mul__/__mod__/div/gcd/lcm/__eq__/__hash__: verification conditions generated from the real source (ast) with sidecar loop invariants, ghost quotients / Bezout cofactors and the axiomatised GF(2)[x] theory on UNBOUNDED integers, all discharged by z3: a = q.b + r with deg r < deg b, gcd divides both and is a combination, lcm.gcd = product. FiniteBifield/FiniteBifieldElement __call__, __add__, __mul__, __pow__, inverse, trace, conjugates per m (all elements, all exponents). Per field m = 1..16 (ground, with the real operations): modulus has degree m, is irreducible (trial division), x has order exactly 2^m - 1 (so the quotient ring is a field: L-field), Fermat for all elements. minimal_polynomial/evaluate/derivative: bounded cross-checks against an independent bitmask implementation. Bounded: several fields built and used in turn in one process, every field re-examined after every construction.",
         note="Trusted: vk.e1 AST translation (differentially checked against the real functions on exhaustive small inputs every run), GF2POLY axioms (instance-tested on all bitmasks < 2^8, consistency probe), lemmas L-euclid/L-field/L-order. Precondition: polynomial values are non-negative ints.",
         design="7/C18",
         technique="contract-based VC generation from the real AST (loop invariants, ghost state, axiomatised GF(2)[x] theory over unbounded ints) discharged by z3; ground per-field obligations",
